@@ -142,10 +142,11 @@ type histOut struct {
 // ---- driver ----
 
 func run(c *vf.Ctx) {
-	c.Rule("history = 8 HTTP clients pinned round-robin to the nodes of a live in-process cluster (1 node, or 3 nodes so that queued writes enter at the leader and at followers and are forwarded) each post a seeded script of 80-85 /db/execute?queue requests (plain, &wait, &wait&timeout=1ms..2s) of 1-5 statements INSERT INTO q(c,n,i) into a table with an AUTOINCREMENT key, with seeded pauses (30% none) so that the queue's size flush and timer flush interleave; per case the batch size (2,3,4,8), queue timeout (2,5,20 ms) and capacity (8,16,64: producers block) vary; on 3 nodes a seeded nemesis steps the leader down, isolates the leader or a follower for 0.4-1.5 s, kills inter-node connections and cuts forwarded responses; half of the histories run under the race detector. After the clients finish: heal, a burst of 24 producers x 120 back-to-back single-statement requests at one node (contention inside the queue's Write), one final wait request per node (drain), one strong read of the whole table. non-trivial = both flush paths were taken (timer flushes and size flushes observed in the queue counters), at least 10 wait responses were followed by a successful strong read, and (3 nodes) the queue consumer had to retry a batch at least once or two different leaders were seen; distinct by case number")
+	c.Rule("history = 8 HTTP clients pinned round-robin to the nodes of a live in-process cluster (1 node, or 3 nodes so that queued writes enter at the leader and at followers and are forwarded) each post a seeded script of 80-85 /db/execute?queue requests (plain, &wait, &wait&timeout=1ms..2s) of 1-5 statements INSERT INTO q(c,n,i) into a table with an AUTOINCREMENT key, with seeded pauses (30% none) so that the queue's size flush and timer flush interleave; per case the batch size (2,3,4,8), queue timeout (2,5,20 ms) and capacity (8,16,64: producers block) vary; on 3 nodes a seeded nemesis steps the leader down, isolates the leader or a follower for 0.4-1.5 s, kills inter-node connections and cuts forwarded responses; half of the histories run under the race detector. After the clients finish: heal, then one consumer-stall round per node under light traffic: the node's queue consumer is held up in the middle of a batch A (a statement with about 2 s of SQLite work, or on 3 nodes the node is cut off so that the apply fails and is retried) while two more queued requests B and C arrive, each alone in its own timer window, and then traffic stops; the steps are sequenced on the process's queue/consumer counters (consumer took A, B handed over by a timer flush, C's timer fired while A was unfinished = staged); then heal and the queues must become quiescent (objects_rx == objects_tx == stmts_tx); then a burst of 24 producers x 120 back-to-back single-statement requests at one node (contention inside the queue's Write), one final wait request per node (drain), one strong read of the whole table. non-trivial = both flush paths were taken (timer flushes and size flushes observed in the queue counters), at least 10 wait responses were followed by a successful strong read, at least one consumer-stall round was staged, and (3 nodes) the queue consumer had to retry a batch at least once or two different leaders were seen; distinct by case number")
 	c.Assume("apply order is what SQLite's AUTOINCREMENT key records; acceptance order on one node is the order of the sequence_number values that node returned")
 	c.Assume("a request answered 200 or 408 (queue wait timeout) was accepted; any other status was refused before the queue; a transport error is an unknown outcome and is not required to appear")
 	c.Assume("duplicates (at-least-once) are tolerated only when the process counted a queue retry or an inter-node client re-send (the latter is the known C02 finding duplicate-apply:forward-resend-after-lost-response); order is judged on first occurrences")
+	c.Assume("bounded progress for 'none dropped': accepted objects held back in a queue (objects_rx > objects_tx) whose consumer has finished everything handed to it (objects_tx == stmts_tx) may stay so for one queue timeout (2-20 ms); the state lasting 12 s with unchanged counters while at least 3 strong reads through the same node succeed is reported as a violation, 3-12 s as inconclusive; queues that do not become quiescent within 90 s for any other reason are inconclusive")
 	n := c.N(4, 48)
 	tmp := vf.TempDir("c23")
 	defer os.RemoveAll(tmp)
